@@ -936,6 +936,19 @@ func (t *txRun) commit() *Violation {
 			t.aborted("commit-failed")
 			r.record(Obs{Op: -1, Kind: "commit", OK: false, Err: ErrKindName(err)})
 			r.drain()
+			if !r.PostPub {
+				// a failed Commit leaves no trace in the allocator either: free lists, end markers,
+				// meta area size, overwrite mapping are those of the moment the transaction began
+				// (a failure after the header was published is the open finding F17: not compared)
+				now := r.F.VerifState()
+				if b, a := AllocStateString(&t.snap0), AllocStateString(&now); a != b {
+					return violationf("failed-commit-residue", t.idx, "Commit failed (%v); allocator state after it differs from the state when the transaction began: before {%s} after {%s}", err, b, a)
+				}
+				r.count("failed-commit-state-compared")
+				if t.metaGrew {
+					r.count("failed-commit-after-meta-grow")
+				}
+			}
 			return nil
 		}
 		r.Maybe = nil
@@ -1614,6 +1627,30 @@ func (r *Runner) checkStats() *Violation {
 		return violationf("stats-meta", r.curItem, "FileStats.MetaAllocated=%d but %d meta pages are in use", st.MetaAllocated, s.MetaTotal-regionCount(s.MetaFree))
 	}
 	return nil
+}
+
+// AllocStateString renders the complete in-memory allocator state except the transaction id.
+func AllocStateString(s *txfile.VerifSnapshot) string {
+	reg := func(rs []txfile.VerifRegion) string {
+		var out []string
+		for _, r := range rs {
+			out = append(out, fmt.Sprintf("%d+%d", r.ID, r.Count))
+		}
+		return strings.Join(out, " ")
+	}
+	ids := func(in []txfile.PageID) string {
+		c := append([]txfile.PageID(nil), in...)
+		sort.Slice(c, func(i, j int) bool { return c[i] < c[j] })
+		return fmt.Sprint(c)
+	}
+	var wal []string
+	for k, v := range s.WAL {
+		wal = append(wal, fmt.Sprintf("%d>%d", k, v))
+	}
+	sort.Strings(wal)
+	return fmt.Sprintf("root=%d maxPages=%d dataEnd=%d metaEnd=%d metaTotal=%d dataFree=[%s](%d) metaFree=[%s](%d) freelistPages=%s wal=%v walPages=%s",
+		s.Root, s.MaxPages, s.DataEnd, s.MetaEnd, s.MetaTotal, reg(s.DataFree), s.DataAvail, reg(s.MetaFree), s.MetaAvail,
+		ids(s.FreelistPages), wal, ids(s.WALPages))
 }
 
 // CheckPartition checks the ownership partition of all pages.
